@@ -108,7 +108,7 @@ CHECKS["C14"] = {
     "technique": "explicit-state model checking (BFS over subscription histories on the real broker objects, reference = MQTT 3.1.1 matching over the live set, structural no-residue differential)",
     "level_text": "every history of SUBSCRIBE / UNSUBSCRIBE (single, mixed with a malformed filter, never-subscribed) / disconnect / reconnect by two clients over 10 filters "
                   "(+, #, empty levels) and 4 malformed filters up to the depth bound is driven through the real Client.processPacket / closeAndDelSession; after every operation "
-                  "all 39 topic names are routed by the real TopicManager and compared with the reference; the trie must equal the trie built from scratch from the live set",
+                  "all 39 topic names are routed by the real TopicManager and compared with the reference; the trie must equal the trie built from scratch from the live set; the routing is done twice per topic, under two different orders in which findSubscribers visits the children of a trie node (range over node.nodes rewritten)",
     "level_note": "finite alphabet; '$' topics excluded; canonical state = live subscription set + connection flags (a residue is itself a violation, so merged states have equal futures)",
     "rule": "BFS split into one job per first operation; states deduplicated by canonical live set; distinct_nontrivial = distinct operation outcome classes",
     "explanation": "states = distinct canonical states reached; transitions = operations applied to fresh real objects after replaying the shortest path; each transition checks 39 topics x 2 clients",
@@ -181,7 +181,7 @@ CHECKS["C20"] = {
     "technique": "exhaustive enumeration of configuration-snapshot histories x one injected callback panic on the real supervisor/registry goroutines, quiescence by testing/synctest",
     "level_text": "every sequence of snapshots up to the bound over names {a,b} x {absent, K1 v1, K1 v2, K2 v1}, each followed to quiescence through the real ObjectRegistry.run -> applyConfig -> watcher -> "
                   "Supervisor.run -> handleEvent chain, with at most one panic injected at any lifecycle callback; oracle = reference lifecycle (DESIGN A.8): Init once on appearance, Inherit once per "
-                  "spec change with the live generation as predecessor, Close once on disappearance, nothing when unchanged, kind change = Close(old)+Init(new), live set = last snapshot, the other name unaffected by a panic",
+                  "spec change with the live generation as predecessor, Close once on disappearance, nothing when unchanged, kind change = Close(old)+Init(new), live set = last snapshot, the other name unaffected by a panic; an object whose Init / Inherit panicked is tracked on (it is still closed exactly once when its name disappears)",
     "level_note": "two test controller kinds registered in the supervisor registry; cluster mocked by clustertest.MockedCluster whose SyncPrefix channel the harness feeds",
     "rule": "choice tree: entry of each name in each snapshot (4x4 per snapshot) + panic-or-not at each callback (deviation bound 1); distinct_nontrivial = distinct multisets of callbacks",
     "explanation": "states = executions (each a distinct snapshot history/panic point); every execution ran the real goroutines to quiescence",
@@ -217,8 +217,8 @@ BROKERINSTR = [{"file": "pkg/object/mqttproxy/broker.go", "imports": {"net": "vn
 CHECKS["C15"] = {
     "level": "model_checking",
     "technique": "exhaustive enumeration of subscriber populations x QoS x map visiting orders x ack behaviours on the real broker goroutines, run to quiescence on the virtual clock of a testing/synctest bubble",
-    "level_text": "real Broker (real newBroker, in-memory listener) with raw MQTT clients over net.Pipe: every population of 2-3 subscribers (filters t,+,#,non-matching x QoS 0/1) x message QoS x EVERY order in which "
-                  "sendMsgToClient visits the subscriber map; QoS1 retransmission every 200 ms until PUBACK and never after, for ack after 0/1/3 periods or never; QoS0 bursts; client QoS1 PUBLISH with publish limiter and dropping pipeline, PUBACKs read promptly or only after the burst",
+    "level_text": "real Broker (real newBroker, in-memory listener) with raw MQTT clients over net.Pipe: every population of 2-3 subscribers (topic t/u; filters t/u, t/+, #, the non-matching level-prefix t, x; QoS 0/1; the first client may hold a second overlapping subscription with the other QoS and may unsubscribe or drop before the publish) x message QoS x EVERY order in which "
+                  "sendMsgToClient visits the subscriber map and findSubscribers the trie; delivered and retransmitted copies carry the original topic, payload and QoS; QoS1 retransmission every 200 ms until PUBACK and never after, for ack after 0/1/3 periods or never; QoS0 bursts to a client that reads late (what fits its queue arrives, in order); client QoS1 PUBLISH with publish limiter and dropping pipeline, PUBACKs read promptly or only after the burst",
     "level_note": "net of broker.go redirected to an in-memory listener; the range over the subscriber map in sendMsgToClient rewritten to an explorer-chosen key order (if the site is not found the check "
                   "reports an instrumentation gap and runs with sorted order); goroutines run free between quiescent points (no interleaving control in this check)",
     "rule": "choice tree: filter and QoS of each subscriber, message QoS, visiting order, ack delay, burst size, limiter/drop/gap; distinct_nontrivial = distinct outcome classes",
@@ -251,12 +251,12 @@ CHECKS["C17"] = {
     "technique": "controlled-scheduler enumeration of accept/close/SetMaxConnection interleavings on the real LimitListener+Semaphore; exhaustive connect/drop/takeover histories on the real MQTT broker",
     "level_text": "HTTP: 8 scenarios (caps 1-2, 3-4 dials, closes incl. double close, grow / shrink below usage / shrink+grow, 1-2 acceptor loops) explored over every schedule of dial, accept, close and "
                   "SetMaxConnection steps (incl. the goroutine that applies a cap change) up to the preemption bound; oracle: with an unchanged cap no admission at open >= cap; at quiescence free capacity is usable, "
-                  "the final capacity equals the last cap exactly (probe dials), nothing established is dropped. MQTT: every history of connect / drop / takeover events over 3 ids at caps 1 and 2 on the real broker",
+                  "the final capacity equals the last cap exactly (probe dials), nothing established is dropped. MQTT: every history of connect / drop / takeover / end-of-a-superseded-link events over 3 ids at caps 1 and 2 on the real broker; unit httpruntime: every history of {dial, close, hot update of maxConnections to 1/2/3, hot update of the rules} on the REAL HTTPServer runtime (fsm, http.Server, LimitListener) over an in-memory listener: accepted open connections = reference while all cap changes applied at once, no established connection dropped, answers from the latest rules",
     "level_note": "sync of sem.go / limitlistener.go replaced by gated shims, gate at the goroutine started by SetMaxCount; golang.org/x/sync/semaphore itself runs uninstrumented (its waits are channel waits, i.e. durably blocked); "
                   "MQTT events are separated by quiescence (no interleaving control inside one CONNECT)",
     "rule": "choice tree = scheduler choices (preemptions are deviations) resp. event histories; distinct_nontrivial = distinct (accepted, open) outcomes resp. histories",
     "explanation": "states = executions; each execution ran the real code under the scheduler / to quiescence",
-    "bounds": {"quick": "preemption bound 2; MQTT histories of 5 events", "thorough": "preemption bound 3; MQTT histories of 7 events"},
+    "bounds": {"quick": "preemption bound 2; MQTT histories of 5 events; HTTP runtime histories of 5 events", "thorough": "preemption bound 3; MQTT histories of 7 events; HTTP runtime histories of 7 events"},
     "assumptions": ["between two gates a goroutine runs atomically"],
     "units": [
         {"name": "limitlistener", "pkg": "pkg/util/limitlistener", "test": "TestVerifC17", "gomaxprocs": 1, "workers": 8,
@@ -275,9 +275,9 @@ CHECKS["C11"] = {
     "level_text": "(a) for 10 filter kinds x {same, changed spec} x 0-2 earlier requests: after the real Pipeline.Inherit (which closes the old generation) a request still holding the old generation and one on the new "
                   "generation complete without panic; (b) BFS over create/update/apply/delete of pipelines p1,p2 and a traffic gate: after every operation every other object still resolves through the gate's mapper "
                   "and answers with its own generation, Apply of an equal spec is a no-op; (c) 2 requests || ApplyPipeline || Delete+Create under the scheduler: no request fails or mixes generations, "
-                  "a request started after the update sees the new generation; (d) requests || mux.reload under the scheduler: every per-request option comes from one generation; "
+                  "a request started after the update sees the new generation; (d) requests || mux.reload under the scheduler: every per-request option comes from one generation; (a2) a filter that keeps its name but changes its kind (all ordered pairs of 10 kinds): the updated pipeline behaves like a fresh one; "
                   "(e) reload differential: for every ordered pair of 7 server specs (rules, body limit, route cache, server-level ipFilter) x 0-2 warm-up requests, after reload every request is answered exactly as by a fresh mux built from the new spec",
-    "level_note": "sync of trafficcontroller.go and sync/atomic of mux.go replaced by gated shims; a recording filter yields between the filters of a pipeline; the HTTPServer runtime (real listener restart) is not covered",
+    "level_note": "sync of trafficcontroller.go and sync/atomic of mux.go replaced by gated shims; a recording filter yields between the filters of a pipeline and inside its Init / Inherit; unit httpruntime (shared with C17): the real HTTPServer runtime on an in-memory listener, hot updates of rules and maxConnections; updates that need a listener restart are not covered",
     "rule": "choice trees: spec change / request count; BFS canonical state = live objects with generation; scheduler choices; distinct_nontrivial = distinct outcome classes",
     "explanation": "states = BFS canonical states + executions; transitions = BFS transitions + executions; all on the real objects",
     "bounds": {"quick": "BFS depth 4; preemption bound 2", "thorough": "BFS depth 6; preemption bound 3"},
@@ -345,7 +345,7 @@ CHECKS["C18"] = {
     "technique": "controlled-scheduler enumeration of 3 concurrent admin requests on the real handlers with a linearisability oracle; TLA+ model of the cluster mutex checked by TLC, all its traces replayed against the real mutex on an embedded etcd",
     "level_text": "part 1: all 56 trios from 8 admin requests (create/update/delete/get/list on overlapping names, same and other kind) x {object present, absent} run concurrently on the real handlers over a fake cluster whose KV operations and (ideal) mutex are "
                   "scheduler gates, every schedule up to the preemption bound; oracle: some sequential order consistent with call/return order explains all statuses, X-Config-Version values, reads and the final store. "
-                  "part 2: see unit mutex (TLC + trace replay)",
+                  "part 2: see unit mutex (TLC + trace replay); job failed-acquisition: a member with a 1 s request timeout fails 1-2 times to lock a mutex another member holds; after the release the handle that failed, another handle of that member and the previous holder must each be able to acquire it",
     "level_note": "part 1 assumes an exclusive lock (that is what part 2 is about); supervisor kinds are two test kinds",
     "rule": "choice tree: initial state + scheduler choices; distinct_nontrivial = distinct status triples",
     "explanation": "states = executions (schedules) resp. TLC states; transitions likewise; traces_validated_against_impl = executions on the real code",
@@ -362,10 +362,10 @@ CHECKS["C19"] = {
     "technique": "exhaustive enumeration of write histories x fault points (etcd server stop/start) x consumers x APIs against the real syncer on an embedded etcd",
     "level_text": "every history of up to 3 (thorough 4) operations from {put k1=v1, put k1=v2, del k1, put k2=v1, del k2, put outside the prefix} x {eager consumer, consumer that reads only afterwards} x {SyncPrefix, Sync (+ raw variants)} "
                   "x {burst, spaced writes}; continuations (every operation pair) after a consumer that stopped reading for 30 pull periods and then drains; thorough: every history of <=2 operations x an etcd server stop+start before every operation and after the last; oracle: each snapshot is a content the store had, positions non-decreasing, "
-                  "consecutive snapshots differ, the final content arrives within 100 pull periods without further writes, nothing spurious follows",
+                  "consecutive snapshots differ, the final content arrives within 100 pull periods without further writes, nothing spurious follows; job histories-with-etcd-outage: the server is down for longer than a pull period plus the request timeout (pulls fail) before or after the last write",
     "level_note": "schedules inside etcd / the gRPC client are not controlled (free-running): the enumeration is over histories and fault points; a server-side watch cancellation cannot be provoked from outside and is covered only through the restart fault and the periodic pull",
     "rule": "choice tree: api, consumer, gap, history length, each operation, restart point; distinct_nontrivial = distinct (api, number of distinct contents, number of snapshots) classes",
-    "bounds": {"quick": "histories <=3, 2 APIs, no faults", "thorough": "histories <=4, 4 APIs, 2 gaps; restart at every point of histories <=2"},
+    "bounds": {"quick": "histories <=3, 2 APIs; outage around 1 write", "thorough": "histories <=4, 4 APIs, 2 gaps; restart at every point of histories <=2"},
     "assumptions": ["the harness is the only writer of its key prefix", "liveness deadline 100 pull periods (10 s)"],
     "units": [
         {"name": "cluster", "pkg": "pkg/cluster", "test": "TestVerifC19", "workers": 12, "deadline_s": {"quick": 240, "thorough": 1700}},
